@@ -480,4 +480,125 @@ theorem expT_neg_quarter : expT (-(1 / 4)) = -I := by
 theorem ratAbs_of_pos {q : ℚ} (h : 0 < q) : ratAbs q = q := by
   unfold ratAbs; rw [if_neg (not_lt.mpr h.le)]
 
+
+/-! ## near-miss grids: the classification is exact -/
+
+theorem truncSlack_intCast (n : ℤ) : truncSlack (n : ℚ) = 0 := by
+  unfold truncSlack frac
+  rw [Rat.floor_intCast]
+  simp
+
+theorem truncSlack_eq_zero_of_den {q : ℚ} (h : q.den = 1) : truncSlack q = 0 := by
+  rw [← Rat.coe_int_num_of_den_eq_one h]
+  exact truncSlack_intCast _
+
+theorem paddedSize_none_of_slack {lf δ Δ : ℚ} (N : ℕ) (h : truncSlack (lf / (δ * Δ)) ≠ 0) :
+    paddedSize lf δ Δ N = none := by
+  unfold paddedSize
+  dsimp only
+  split_ifs with h0 h1
+  · rfl
+  · exact absurd (truncSlack_eq_zero_of_den h1.1) h
+  · rfl
+
+theorem paddedSize_of_eq {lf δ Δ : ℚ} {N M : ℕ} (h0 : δ * Δ ≠ 0) (hM : 0 < M) (hN : N ≤ M)
+    (h : (M : ℚ) * (δ * Δ) = lf) : paddedSize lf δ Δ N = some M := by
+  have hm : lf / (δ * Δ) = ((M : ℕ) : ℚ) := by rw [← h]; exact mul_div_cancel_right₀ _ h0
+  unfold paddedSize
+  rw [if_neg h0]
+  dsimp only
+  rw [hm]
+  have : ((M : ℕ) : ℚ).den = 1 ∧ 0 < ((M : ℕ) : ℚ).num ∧ (N : ℤ) ≤ ((M : ℕ) : ℚ).num := by
+    refine ⟨Rat.den_natCast M, ?_, ?_⟩
+    · rw [Rat.num_natCast]; exact_mod_cast hM
+    · rw [Rat.num_natCast]; exact_mod_cast hN
+  rw [if_pos this, Rat.num_natCast]
+  simp
+
+/-- the slack is zero exactly at the integers -/
+theorem truncSlack_eq_zero_iff (q : ℚ) : truncSlack q = 0 ↔ q.den = 1 := by
+  constructor
+  · intro h
+    unfold truncSlack frac at h
+    dsimp only at h
+    have hf1 : q - (q.floor : ℚ) < 1 := by
+      have := Rat.lt_floor_add_one q
+      push_cast at this
+      linarith
+    have hq : q = (q.floor : ℚ) := by
+      split_ifs at h with hlt
+      · linarith
+      · linarith
+    rw [hq]; exact Rat.den_intCast _
+  · exact truncSlack_eq_zero_of_den
+
+theorem classify_other_of_slack_x {s : Setup} {focal : RegGrid} {δx δy Δx Δy zx zy Zx Zy : ℚ} {Nx Ny Mox Moy : ℕ}
+    (hp : s.pupil = ⟨[δx, δy], [Nx, Ny], [zx, zy]⟩) (hf : focal = ⟨[Δx, Δy], [Mox, Moy], [Zx, Zy]⟩)
+    (h : truncSlack (lamf s / (δx * Δx)) ≠ 0) : (classify s focal).1 = .other := by
+  subst hf
+  unfold classify paddedSizes
+  rw [hp]
+  simp [paddedSize_none_of_slack Nx h]
+
+theorem classify_other_of_slack_y {s : Setup} {focal : RegGrid} {δx δy Δx Δy zx zy Zx Zy : ℚ} {Nx Ny Mox Moy : ℕ}
+    (hp : s.pupil = ⟨[δx, δy], [Nx, Ny], [zx, zy]⟩) (hf : focal = ⟨[Δx, Δy], [Mox, Moy], [Zx, Zy]⟩)
+    (h : truncSlack (lamf s / (δy * Δy)) ≠ 0) : (classify s focal).1 = .other := by
+  subst hf
+  unfold classify paddedSizes
+  rw [hp]
+  cases hx : paddedSize (lamf s) δx Δx Nx <;> simp [hx, paddedSize_none_of_slack Ny h]
+
+theorem commSlack_2d {s : Setup} {focal : RegGrid} {δx δy Δx Δy zx zy Zx Zy : ℚ} {Nx Ny Mox Moy : ℕ}
+    (hp : s.pupil = ⟨[δx, δy], [Nx, Ny], [zx, zy]⟩) (hf : focal = ⟨[Δx, Δy], [Mox, Moy], [Zx, Zy]⟩) :
+    commSlack s focal = [truncSlack (lamf s / (δx * Δx)), truncSlack (lamf s / (δy * Δy))] := by
+  subst hf
+  unfold commSlack
+  rw [hp]
+  rfl
+
+/-- commensurate on both axes, focal sizes within the padded sizes ⇒ classified native (or full) with those sizes -/
+theorem classify_of_comm {s : Setup} {focal : RegGrid} {δx δy Δx Δy zx zy Zx Zy : ℚ} {Nx Ny Mox Moy Mx My : ℕ}
+    (hp : s.pupil = ⟨[δx, δy], [Nx, Ny], [zx, zy]⟩) (hf : focal = ⟨[Δx, Δy], [Mox, Moy], [Zx, Zy]⟩)
+    (hx : paddedSize (lamf s) δx Δx Nx = some Mx) (hy : paddedSize (lamf s) δy Δy Ny = some My)
+    (hox : Mox ≤ Mx) (hoy : Moy ≤ My) : (classify s focal).1 ≠ .other ∧ (classify s focal).2 = [Mx, My] := by
+  subst hf
+  unfold classify paddedSizes
+  rw [hp]
+  simp only [List.length_cons, List.length_nil, ne_eq, not_true_eq_false, ↓reduceIte, List.zip_cons_cons,
+    List.zip_nil_right, List.mapM_cons, List.mapM_nil, hx, hy, Option.pure_def, Option.bind_eq_bind,
+    Option.bind_some, List.all_cons, List.all_nil, Bool.and_true]
+  have hle : (decide (Mox ≤ Mx) && decide (Moy ≤ My)) = true := by simp [hox, hoy]
+  rw [if_pos hle]
+  constructor
+  · split_ifs <;> simp
+  · rfl
+
+/-! ## the tolerant test with zero tolerance is the exact one -/
+
+theorem roundHalfEven_intCast (n : ℤ) : roundHalfEven (n : ℚ) = n := by
+  unfold roundHalfEven
+  rw [Rat.floor_intCast]
+  simp
+
+theorem paddedSizeLoose_zero (lf δ Δ : ℚ) (N : ℕ) : paddedSizeLoose 0 0 lf δ Δ N = paddedSize lf δ Δ N := by
+  unfold paddedSizeLoose paddedSize
+  by_cases h0 : δ * Δ = 0
+  · rw [if_pos h0, if_pos h0]
+  rw [if_neg h0, if_neg h0]
+  dsimp only
+  generalize lf / (δ * Δ) = m
+  rw [ratAbs_eq_abs, zero_mul, add_zero]
+  by_cases hd : m.den = 1
+  · have hm : m = ((m.num : ℤ) : ℚ) := (Rat.coe_int_num_of_den_eq_one hd).symm
+    have hr : roundHalfEven m = m.num := by rw [hm, roundHalfEven_intCast]; simp
+    have habs : |m - ((m.num : ℤ) : ℚ)| ≤ 0 := by rw [← hm]; simp
+    simp only [hd, hr, habs, true_and]
+  · have hne : ¬ |m - ((roundHalfEven m : ℤ) : ℚ)| ≤ 0 := by
+      intro h
+      have : m = ((roundHalfEven m : ℤ) : ℚ) := by
+        have := abs_nonpos_iff.mp h
+        linarith
+      exact hd (by rw [this]; exact Rat.den_intCast _)
+    simp only [hd, hne, false_and, if_false]
+
 end HcipyVerif.Fraunhofer
